@@ -159,3 +159,37 @@ pub fn probe_render(e: &xml_schema_generator::Element<String>) {
         let _ = std::panic::catch_unwind(std::panic::AssertUnwindSafe(|| e.to_serde_struct(&xml_schema_generator::Options::quick_xml_de())));
     }
 }
+
+/// A logger that formats every record and throws the text away: with it installed the arguments of the crate's
+/// `log` macros are evaluated (without a logger they never are, which is how the repository's tests run).
+struct Sink;
+impl log::Log for Sink {
+    fn enabled(&self, _: &log::Metadata) -> bool {
+        true
+    }
+    fn log(&self, record: &log::Record) {
+        use std::fmt::Write;
+        let mut s = String::new();
+        let _ = write!(s, "{}", record.args());
+    }
+    fn flush(&self) {}
+}
+static SINK: Sink = Sink;
+
+pub fn install_logger() {
+    let _ = log::set_logger(&SINK);
+    log::set_max_level(log::LevelFilter::Off);
+}
+
+/// Logging is switched between Trace and Off at the points where probe renderings may happen (same schedule kind:
+/// pseudo-random per opportunity, VERIF_PROBE=all means always on): a caller may or may not have a logger installed.
+pub fn toggle_logging() {
+    static N: std::sync::atomic::AtomicU64 = std::sync::atomic::AtomicU64::new(0);
+    let n = N.fetch_add(1, std::sync::atomic::Ordering::Relaxed);
+    let on = match std::env::var("VERIF_PROBE").as_deref() {
+        Ok("all") => true,
+        Ok("none") => false,
+        _ => Rng::new(0x5EED ^ n.wrapping_mul(0x9E37_79B9_7F4A_7C15)).chance(1, 2),
+    };
+    log::set_max_level(if on { log::LevelFilter::Trace } else { log::LevelFilter::Off });
+}
